@@ -251,6 +251,24 @@ class RegionVisual(Meta):
         else:
             remove_keys.extend(['linewidth'])
 
+        # visual keys that belong to a region file format (DS9, CRTF) or
+        # to another artist type are not keywords of this matplotlib
+        # artist
+        remove_keys.extend(['dash', 'dashlist', 'font', 'labelcolor',
+                            'labeloff', 'labelpos', 'line', 'symbol',
+                            'symthick', 'textrotate'])
+        if artist == 'Patch':
+            remove_keys.extend(['dashes', 'marker', 'markeredgewidth',
+                                'markersize', 'rotation', 'symsize',
+                                'textangle', 'usetex'])
+        elif artist == 'Line2D':
+            remove_keys.extend(['edgecolor', 'facecolor', 'rotation',
+                                'textangle', 'usetex'])
+        else:
+            remove_keys.extend(['dashes', 'edgecolor', 'facecolor', 'fill',
+                                'linestyle', 'marker', 'markeredgewidth',
+                                'markersize', 'symsize'])
+
         for key in remove_keys:
             kwargs.pop(key, None)
 
